@@ -171,7 +171,9 @@ def run_rules(ctx, res):
             continue
         fp = fparam[0]
         pops_let = ctor_let = None
-        for st in fn["body"]["stmts"]:
+        # (top-level lets first, then lets nested in a branch: the chain may sit inside the `if any used { .. }`)
+        top_lets = [st for st in fn["body"]["stmts"] if st["k"] == "Let"]
+        for st in top_lets + [x for x in nodes(fn["body"], "Let") if not any(x is y for y in top_lets)]:
             if st["k"] != "Let" or st.get("init") is None:
                 continue
             root, names, chain = chain_names(st["init"])
